@@ -12,34 +12,63 @@ def helper_processors(ctx):
     run.rule('HLP', 'HELPERS: row_processor returns the result of the callable for the row, or the row itself when the callable returns None '
                     '(in-place editing); rows_processor / resources_processor yield exactly what the callable produces from the stream '
                     'they were given; the dispatcher wraps row / rows / package callables in the matching helper')
-    rp = repo.cls('dataflows.helpers.row_processor:row_processor').methods['process_row']
+    from sa.model import norm_compare
+    from sa.pathvals import PathValues
+    from sa.pattern import match_expr, match_stmt
+    from sa.deps import names_in
+    from sa.paths import RAISE
+    rp = ctx.N(repo.cls('dataflows.helpers.row_processor:row_processor').methods['process_row'])
     row = rp.params[1]
     paths = Enumerator(where=rp.qualname).paths(rp.node.body)
-    ok = len(paths) == 2 and has_stmt('_ret = self.func(%s)' % row, rp.node)
+    ok = bool(paths)
+    seen = set()
+    applied = 'self.func(%s)' % row
     for p in paths:
-        g = [(u(t), pol) for t, pol in p.guards()]
-        rets = [it.node for it in p.items if it.kind == 'return']
-        none = any((t.endswith('is None') and pol) or (t.endswith('is not None') and not pol) for t, pol in g)
-        if not g or len(rets) != 1:
+        pv = PathValues(p)
+        none = None
+        for t, pol in pv.guards:
+            t, pol = norm_compare(t, pol)
+            if match_expr(applied + ' is None', t) is not None:
+                none = pol
+        if none is None or len(pv.returns) != 1:
             ok = False
-        elif none:
-            ok = ok and u(rets[0].value) == row
-        else:
-            ok = ok and u(rets[0].value) != row and isinstance(rets[0].value, ast.Name)
-    run.check(ok, 'HLP', rp.where, rp.qualname, 'ret = self.func(row); return row if ret is None else ret',
+            continue
+        seen.add(none)
+        v = pv.returns[0]
+        ok = ok and (u(v) == row if none else match_expr(applied, v) is not None)
+    # the callable is applied once: one call in the source, however many times its value is mentioned
+    calls = [c for c in ast.walk(rp.node) if isinstance(c, ast.Call) and u(c.func) == 'self.func']
+    run.check(ok and seen == {True, False} and len(calls) == 1, 'HLP', rp.where, rp.qualname,
+              'ret = self.func(row); return row if ret is None else ret',
               'a row function\'s result is not what reaches the stream (a falsy result such as {} or 0 must not be replaced by the row)')
     for cq, meth in (('dataflows.helpers.rows_processor:rows_processor', 'process_resource'),
                      ('dataflows.helpers.resources_processor:resources_processor', 'process_resources')):
-        m = repo.cls(cq).methods[meth]
+        m = ctx.N(repo.cls(cq).methods[meth])
         body = [s_ for s_ in m.node.body if not (isinstance(s_, ast.Expr) and isinstance(s_.value, ast.Constant))]
-        ok = len(body) == 1 and has_expr('(yield from self.func(%s))' % m.params[1], m.node)
-        run.check(ok, 'HLP', m.where, m.qualname, 'yield from self.func(%s)' % m.params[1],
+        arg = m.params[1]
+        ok = len(body) == 1 and (match_stmt('yield from self.func(%s)' % arg, body[0]) is not None or
+                                 match_stmt('for _x in self.func(%s):\n    yield _x' % arg, body[0]) is not None)
+        run.check(ok, 'HLP', m.where, m.qualname, 'yield from self.func(%s)' % arg,
                   'the rows function is not applied to the stream as given, or its output is altered')
-    fl = repo.cls('dataflows.base.flow:Flow').methods['_chain']
+    _flow, fl, loop = framework.find_dispatch_loop(ctx)
+    link = loop.target.elts[-1].id if isinstance(loop.target, ast.Tuple) else loop.target.id
+    rets = [n for n in ast.walk(fl.node) if isinstance(n, ast.Return) and isinstance(n.value, ast.Name)]
+    ds = rets[-1].value.id
     want = {'row': 'row_processor', 'rows': 'rows_processor', 'package': 'datapackage_processor'}
+    got = {}
+    for p in Enumerator(cap=4096, where=fl.qualname).body_paths(loop):
+        if p.term == RAISE:
+            continue
+        pv = PathValues(p)
+        for t, pol in pv.guards:
+            t, pol = norm_compare(t, pol)
+            if pol and isinstance(t, ast.Compare) and len(t.ops) == 1 and isinstance(t.ops[0], ast.Eq) and \
+                    isinstance(t.comparators[0], ast.Constant) and t.comparators[0].value in want and \
+                    link in names_in(t.left) and 'signature' in names_in(t.left):
+                got.setdefault(t.comparators[0].value, []).append(pv.value(ds))
     for pname, helper in want.items():
-        hits = [n for n in ast.walk(fl.node) if isinstance(n, ast.If) and u(n.test) == "params[0] == %r" % pname]
-        ok = len(hits) == 1 and len(hits[0].body) == 1 and u(hits[0].body[0]).startswith('ds = %s(link)(ds, position=position)' % helper)
+        vals = got.get(pname, [])
+        ok = bool(vals) and all(v is not None and match_expr('%s(%s)(%s, position=___)' % (helper, link, ds), v) is not None for v in vals)
         run.check(ok, 'HLP', fl.where, fl.qualname, "parameter %r -> %s(link)(ds, position=position)" % (pname, helper),
                   'a callable whose parameter is called %r is not dispatched to %s' % (pname, helper))
 
